@@ -133,6 +133,19 @@ def schedules(fam):
                   {"op": "reset", "acc": ["e"], "settle": True}, {"op": "reset", "acc": ["e"], "settle": True}]
         steps += [{"op": "reply", "t": "access", "pick": 3, "out": "deny", "settle": True}] * 4 + [Q]
         out.append(S(fam, "many", steps))
+    if fam == "access":
+        st = dict(settle=True)
+        tk = lambda t: {"op": "token", "c": "c1", "tok": t, "tid": "tid1", "settle": True}
+        call = lambda rid: {"op": "send", "c": "c1", "m": "call", "rid": rid, "action": "a", "settle": True}
+        # an access request of a call on an indirectly held resource is in flight while the token changes: its answer
+        # (for the old token) must not back later calls
+        out.append(S(fam, "stalecache", [opn("c1"), tk('"t1"'), dict(sub("c1", "a"), **st), Q, call("b"), tk('"t2"'),
+                                         dict(reply("access", "b"), **st), dict(reply("call", "b"), **st), Q,
+                                         call("b"), dict(reply("call", "b"), **st), dict(reply("access", "b", out="deny"), **st), Q]))
+        # the same with a reaccess event as the trigger
+        out.append(S(fam, "stalecache2", [opn("c1"), tk('"t1"'), dict(sub("c1", "a"), **st), Q, call("b"), ev("b", "reaccess", **st),
+                                          dict(reply("access", "b"), **st), dict(reply("call", "b"), **st), Q,
+                                          call("b"), dict(reply("call", "b"), **st), dict(reply("access", "b", out="deny"), **st), Q]))
     if fam == "life":
         # Stop while a get response is queued on the cache and the connection's dispose is queued on the connection:
         # the late Loaded closure runs behind the dispose closure, after the cache workers were stopped
